@@ -70,7 +70,8 @@ AvgItems(ev) ==
   ELSE IF ev.exc # "none" THEN << Item("returns", BADR) >>
   ELSE LET m == DV(ev.m)  Mm == M(g, m)  n == ev.n
            band == FMulInt(IF ev.sc = "f" THEN FMulInt(FPow2(-23), 100) ELSE FMulInt(FPow2(-52), 100), 2)
-           tolS == FMulInt(SqrtEps(ev), 256)     \* 3.8e-6 (double): the routines stop when the update is below sqrt(eps)
+           tolS == FMulInt(SqrtEps(ev), 512)     \* 7.6e-5 (double): the iterations stop when the update is below sqrt(eps) = 1.5e-7; two runs from
+                                                 \* different starting points then differ by that step amplified by the contraction of the iteration (observed x10)
            loose(X, Y, S) == MRatioMilli(X, Y, TolMat(S, tolS, Z, FloorOf(ev)))
            Lm == M(g, DV(ev.L))  Rg == M(g, DV(ev.R))
            ws == [i \in 1..n |-> DV(ev.wit[i])]
